@@ -266,8 +266,7 @@ def run(ctx, chk):
             for k, fed in keys.items():
                 chk.require(fed == [k], "J1", "%s:%s:writer-binding" % (ty, k), sb.span, "key %s is fed by field(s) %s" % (k, fed), describe_path(r))
         chk.require(wkeys is not None, "J1", ty + ":serialize-analysed", sb.span, "no complete serialization path")
-        vs = [bd for bd in db.bodies.values() if bd.name == "visit_str" and visitor_hint in bd.defp]
-        vm = [bd for bd in db.bodies.values() if bd.name == "visit_map" and visitor_hint in bd.defp]
+        vs, vm = db.serde_visitors(ty)
         if not chk.require(len(vs) == 1 and len(vm) == 1, "J1", ty + ":visitor", "", "visitor bodies found: %d/%d" % (len(vs), len(vm))):
             continue
         table, rejects, n_ok = visitor_table(ctx, vs[0], vm[0], adt)
